@@ -208,6 +208,15 @@ package main
 //@   ensures r != nil && fresh(r) && r.id == id && r.natType == natType && r.proxyType == proxyType && r.clients == clients
 //@   ensures {private-channels} fresh(r.offerChannel) && fresh(r.answerChannel) && r.offerChannel != r.answerChannel
 //
+// Broker(): every poll taken from the queue gets a registry entry and a goroutine of its own, and that goroutine keeps
+// ITS entry and ITS poll (the variables it shares with the loop are never assigned again: obligation go.capture).
+//@ channel BrokerContext.proxyPolls carries value != nil && value.offerChannel != nil
+//@ func (ctx *BrokerContext) Broker()
+//@   props C02, C03, C04, C14
+//@   flag nosafety
+//@   requires ctx != nil
+//@   loop 1 invariant {one-goroutine-per-registered-poll} calls(AddSnowflake) == spawns(Broker$1)
+//
 // The per-poll goroutine started by Broker(): on timeout the entry is removed from the pool it was filed in
 // (iff it is still queued), unregistered, and the poll is answered.
 //@ func (ctx *BrokerContext) Broker$1(request *ProxyPoll)
